@@ -65,6 +65,7 @@ class DictRun:
         self.per_kind = collections.Counter()
         self.per_state = collections.Counter()
         self.known_seen = collections.Counter()
+        self.blocked = collections.OrderedDict()
 
     def input_path(self, case):
         h = case.ihash()
@@ -204,6 +205,11 @@ class DictRun:
                         self.stat["blocked_by_known"] += 1
                     else:
                         self.stat["blocked_by_unknown"] += 1
+                        bk = "|".join(["C07", f["kind"], f["state"], f["op"], f["fclass"], f["site"], f["qcls"]])
+                        if bk not in self.blocked:
+                            self.blocked[bk] = {"sig": dict(property="C07", kind=f["kind"], state=f["state"], op=f["op"], fclass=f["fclass"], site=f["site"], qcls=f["qcls"]),
+                                                "count": 0, "case": case, "detail": f["detail"], "stderr": f.get("stderr", ""), "crash": True}
+                        self.blocked[bk]["count"] += 1
                         self.stat_blocked_example = "%s %s %s op=%s %s at %s" % (case.kind, case.state, case.iname, f["op"], f["fclass"], f["site"])
             if res["status"] == "ok":
                 self.stat["completed"] += 1
